@@ -14,6 +14,7 @@ EXTRA_TARGETS = {
     'C14': ['XdocModel.Proofs.C14Total'],
     'C15': ['XdocModel.Proofs.Compose2'],
     'C18': ['XdocModel.Proofs.C18Labels', 'XdocModel.Proofs.Compose', 'XdocModel.Proofs.NDigits'],
+    'C16': ['XdocModel.Proofs.Switch'],
     'C19': ['XdocModel.Proofs.Compose2', 'XdocModel.Proofs.DumpKept'],
 }
 
@@ -59,6 +60,10 @@ EXTRA_THEOREMS['C10'] += [('Xdoc.C10.exitCode_le_one', 'full'), ('Xdoc.C10.osSta
 
 EXTRA_THEOREMS['C18'] += [('Xdoc.C18.nDigits_minimal', 'full'), ('Xdoc.C18.nDigits_eq_iff', 'full'), ('Xdoc.C18.nDigits_pow', 'full'),
                           ('Xdoc.C18.nDigits_pow_succ', 'full')]
+
+EXTRA_THEOREMS['C16'] = [('Xdoc.Switch.mode_never_changes_tests', 'full'), ('Xdoc.Switch.auto_is_static_for_py', 'full'),
+                         ('Xdoc.Switch.static_ignores_import', 'full'), ('Xdoc.Switch.need_dynamic_never_static', 'full'),
+                         ('Xdoc.Switch.unknown_mode_raises', 'full'), ('Xdoc.Switch.import_failure_separates_modes', 'witness')]
 
 
 def _replay_K_C08_c(ctx, finding):
@@ -118,6 +123,11 @@ EXTRA_TEXT = {
             "of eight (phase, error) pairs; the other ten are impossible) with a kernel-checked witness docstring for each possible pair (`possibleFailures_all_occur`, each also run "
             "through the real parser), and fuel-freeness of every loop (`findStart_some_spec`, `intervalStarts_decreasing`, `hackComments_fuel_free`, `isBalanced_fuel_free`)."),
     'C15': (" ADDED (Proofs/Compose2.lean): `both_exit_nonzero_iff_failed_of_frames`, `exit_statuses_agree` with the escape hypothesis replaced by C09's frame hypothesis."),
+    'C16': (" ADDED (Proofs/Switch.lean, fourth session): the analysis switch `core.parse_calldefs` is now inside the model (`Switch.parseCalldefs`: static / dynamic / auto / "
+            "unknown value, need_dynamic, import failure kinds) — `mode_never_changes_tests` (for a `.py` module of the fragment whose import succeeds the three accepted modes "
+            "return the same identifiers with the same docstrings in the same order), `auto_is_static_for_py`, `static_ignores_import`, `need_dynamic_never_static`, "
+            "`unknown_mode_raises`, witness `import_failure_separates_modes`; the correspondence now also collects every generated package with the default `analysis='auto'` "
+            "and requires the result of `static`. Not modelled: the deprecated sys.argv overrides (`--allow-xdoc-dynamic`, `--xdoc-force-dynamic`)."),
     'C19': (" ADDED (Proofs/Compose2.lean, C19∘C13∘C01): `dump_of_parsed_is_program(_exact)` — for an example whose parts come from the parser model, the body of its dumped "
             "test function minus header, want comments and the four-blank indent is exactly the de-prompted source of the docstring in order minus star imports; "
             "`cleanExample_of_parse` discharges C19's cleanliness hypothesis from the C13 tiling; `star_only_part_leaves_blank_line` is the one residue hypothesis that is needed. "
